@@ -16,6 +16,14 @@ def convert(raw, sid):
     gensel = bool(raw["gensel"])
     names = list(raw["order"])
     puid = "p1"
+    # cluster-scoped parent with namespaced children: the first two slots are the SAME name in two namespaces
+    # (programmes that address children by name alone keep distinct names)
+    twin = raw["scope"] == "ClNs" and raw["prog"] in ("none", "first", "all", "badlabel", "ownedref") and len(names) >= 2
+
+    def loc(n):
+        if twin and n == names[1]:
+            return "ns2", names[0]
+        return sc["cns"], n
     match_labels = {"controller-uid": puid} if gensel else {"app": "x"}
     hook_labels = {} if gensel else {"app": "x"}          # with generateSelector the controller injects the label
     la_labels = dict(match_labels) if kind == "composite" else {}
@@ -36,7 +44,10 @@ def convert(raw, sid):
         return d
 
     def child(name, s, ns=None):
-        o = {"res": sc["childRes"], "name": name, "uid": "c-" + name + ("-" + ns if ns else "")}
+        slot = name
+        if ns is None and twin:
+            ns, name = loc(name)
+        o = {"res": sc["childRes"], "name": name, "uid": "c-" + slot + ("-" + ns if ns else "")}
         if ns:
             o["ns"] = ns
         labels = dict(match_labels) if s["match"] else {"misc": "z"}
@@ -48,6 +59,8 @@ def convert(raw, sid):
         elif s["ctrl"] == "F":
             o["owners"] = [foreign]
         val = "v1" if s["eq"] else "old"
+        if s["extra"] == "drift":
+            val = "drifted"          # edited by somebody else after our last apply (the record below says v1)
         body = content(val, s["extra"])
         if sc["top"] == "spec":
             o["spec"] = body
@@ -61,7 +74,7 @@ def convert(raw, sid):
         if ann:
             o["ann"] = ann
         if s["la"]:
-            o["la"] = {"f1": val}
+            o["la"] = {"f1": "v1" if s["extra"] == "drift" else val}
             o["laLabels"] = la_labels if kind == "composite" else dict(hook_labels)
             if sc["top"] == "data":
                 o["laTop"] = "data"
@@ -81,9 +94,9 @@ def convert(raw, sid):
                                      "marker": True, "extra": "none"}, ns="ns2"))
 
     def desired(name):
-        d = {"res": sc["childRes"], "name": name, "labels": hook_labels}
+        d = {"res": sc["childRes"], "name": loc(name)[1], "labels": hook_labels}
         if raw["scope"] == "ClNs":
-            d["ns"] = "ns1"            # a cluster-scoped parent must say where its namespaced children live
+            d["ns"] = loc(name)[0]     # a cluster-scoped parent must say where its namespaced children live
         if sc["top"] == "spec":
             d["spec"] = {"f1": "v1"}
         else:
@@ -97,7 +110,7 @@ def convert(raw, sid):
         hp = {"prog": "const", "children": [desired(names[0])]}
     elif prog == "badlabel":
         bad = desired(names[0])
-        bad["labels"] = {"app": "wrong"}
+        bad["labels"] = {"controller-uid": "someone-else"} if (gensel and kind == "composite") else {"app": "wrong"}
         hp = {"prog": "const", "children": [bad]}
     elif prog == "all":
         hp = {"prog": "const", "children": [desired(n) for n in names]}
@@ -134,7 +147,7 @@ def convert(raw, sid):
     if raw["pre"]:
         fixf = {("spec.f1" if sc["top"] == "spec" else "data.f1"): "s:v1"}
         expect.update({
-            "fix": [{"kind": sc["childKind"], "ns": sc["cns"], "name": n, "fields": fixf, "labels": dict(match_labels) if kind == "composite" else dict(hook_labels)}
+            "fix": [{"kind": sc["childKind"], "ns": loc(n)[0], "name": loc(n)[1], "fields": fixf, "labels": dict(match_labels) if kind == "composite" else dict(hook_labels)}
                     for n in sorted(raw["fix"])],
             "parentUid": puid, "parentNs": sc["pns"], "marker": "dc" if kind == "decorator" else "",
             # an echoing hook wants observed children as they are: no content is prescribed
